@@ -1362,13 +1362,45 @@ def m_collect(E, st, fid, t, args, dest_ty):
     return E.call_local(st, body.id, [args[0]], gs)
 
 
+def _fmt_argument(E, st, fid, t, args, dest_ty):
+    """core::fmt::rt::Argument::new_display / new_debug / ...: wraps a reference to the value that will be
+    formatted (by user Display/Debug code) -- recorded in the path log, otherwise an opaque call of core"""
+    if args:
+        st.log('fmtarg', E.rtag(st, args[0]))
+    return E.opaque_call(st, fid, t, args, dest_ty)
+
+
+for _n in ('new_display', 'new_debug', 'new_lower_hex', 'new_upper_hex', 'new_lower_exp', 'new_upper_exp', 'new_octal',
+           'new_binary', 'new_pointer'):
+    REGISTRY["core::fmt::rt::Argument::<'_>::" + _n] = _fmt_argument
+    MODEL_DOC["core::fmt::rt::Argument::<'_>::" + _n] = 'opaque; the value to be formatted is recorded in the path log'
+
+
 def _entries(E, st, fid, t, args, dest_ty):
     """DebugList/DebugSet/DebugMap::entries: formats every item of the iterator (user Debug code)"""
     it_ptr, ip = _with_iter(E, st, fid, args[1])
 
+    # is the iterator handed over a faithful copy of the root's receiver (Debug of a lazy iterator through a clone)?
+    same = None
+    try:
+        ent = getattr(E, 'root_entry', None)
+        v = E.load(st, it_ptr)
+        if ent is not None and ent[0]:
+            v0 = ent[0][0]
+            d = 0
+            while v0 is not None and v0[0] == 'ref' and d < 4:
+                v0 = E.load(ent[1], v0[2], quiet=True)
+                d += 1
+            from .specs import val_eq_z
+            same = bool(val_eq_z(st.zone, v, v0))
+    except Exception:
+        same = None
+    st.log('entries-over', same)
+
     def on_item(s, item):
         out = []
         s.log('user', 'fmt', (E.tag_of(item),))
+        s.log('fmtarg', E.rtag(s, item))
         E.stats['user_calls'] += 1
         for u in escape(E, s, 'user', 'Debug::fmt'):
             out.append(('done',) + u)
